@@ -50,6 +50,7 @@ def main(ctx, replay=None):
             ctx.sample({"case": summary(case), "cv_min": float(case["cv"].min())})
     replay_behaviours(ctx, oracle, cases, rng, ("gap", "adi"), check_cache=False)
     shear_identity(ctx, rng)
+    scheduler_identity(ctx, rng, cases)
 
 
 def shear_identity(ctx, rng):
@@ -77,3 +78,57 @@ def shear_identity(ctx, rng):
             if not (numpy.shape(iso) == numpy.shape(adi) and numpy.array_equal(numpy.asarray(iso), numpy.asarray(adi))):
                 ctx.violation(f"c{I}{J}: adiabatic differs from isothermal", {"key": [I, J]}, {"clause": "shear_adi_eq_iso"})
     ctx.cov["shear_keys_checked"] = n
+
+
+def scheduler_identity(ctx, rng, cases):
+    """Through the real scheduler: shear tasks read isothermal dependencies only and store adi == iso (trace-validated)."""
+    from cij.util import c_
+    from cv import sched
+    from cv.schedtrace import record
+    from cv.trace import validate_trace
+    inst = sched.load_instances(ctx, scenarios=("generic",))["generic"]
+    keys = [c_(I, J) for I in range(1, 7) for J in range(I, 7)]
+    nruns = 2 if ctx.tier == "quick" else 12
+    records = []
+    for r in range(nruns):
+        case = cases[(r * 7) % len(cases)]
+        ntv = len(case["v"])
+        while True:
+            e = draw_fractions(rng, ntv)
+            if min(numpy.min(numpy.abs(e[:, a] - e[:, b])) for a, b in ((0, 1), (0, 2), (1, 2))) > 2e-2:
+                break
+        order = [keys[i] for i in rng.permutation(len(keys))]
+        events, tl, (iso, adi), info = record(inst, DuckCalc(case), e, order)
+        ctx.count({"scheduler_run": r, "h": float(e.sum())})
+        if info["error"] is not None or iso is None:
+            continue                      # a failing run is C04's business (completeness)
+        for k in order:
+            if k.is_shear and not numpy.array_equal(numpy.asarray(iso[k]), numpy.asarray(adi[k])):
+                d = float(numpy.max(numpy.abs(numpy.asarray(iso[k]) - numpy.asarray(adi[k]))))
+                ctx.violation(f"scheduler: c{k.voigt[0]}{k.voigt[1]} adiabatic differs from isothermal by {d:.3g} (unequal axial strains)",
+                              {"key": list(k.voigt), "strain": e, "case": case}, {"clause": "shear_adi_eq_iso_scheduler"})
+        if events is None:
+            continue
+        for ev in events:
+            if ev["ev"] != "Eval":
+                continue
+            t = next(t for t in tl._tasks if _pid(inst, e, t) == ev["task"])
+            a = tl.modulus_adiabatic_values[t.task_params]
+            b = tl.modulus_isothermal_values[t.task_params]
+            records.append({"task": f"{r}:{ev['task']}", "shear": ev["task"].startswith("S"),
+                            "reads": [[f"{r}:{d}", st] for d, st in ev["reads"]], "same": bool(numpy.array_equal(a, b))})
+    if records:
+        ok, consumed, _ = validate_trace(ctx, "Trace_ShearAdi", "Trace_ShearAdi.cfg", records, name="shear_adi")
+        if not ok:
+            bad = records[consumed]
+            ctx.violation(f"scheduler: evaluation record {bad} violates 'shear tasks read isothermal dependencies only and store adi = iso'",
+                          {"record": bad, "index": consumed}, {"clause": "shear_trace"})
+    ctx.cov["scheduler_eval_records"] = len(records)
+
+
+def _pid(inst, strain, task):
+    from cv.schedtrace import Projector
+    key = (id(inst), strain.tobytes())
+    if getattr(_pid, "_k", None) != key:
+        _pid._k, _pid._p = key, Projector(inst, strain)
+    return _pid._p.params(task.task_params)
